@@ -23,7 +23,7 @@ OUTPUTS = ["pandas", "numpy", "sparse"]
 
 
 def spec_for(fid):
-    """mirror of MC_Missing!Formulas 4,5,8,9,10,11,12,13,14 -> (formula spec, kwargs, expected shape, per-part term strings)"""
+    """mirror of MC_Missing!Formulas 4,5,8..16,18,19 -> (formula spec, kwargs, expected shape, per-part term strings)"""
     from formulaic import Formula
 
     if fid == 4:
@@ -48,6 +48,10 @@ def spec_for(fid):
         return (lambda: Formula("b ~ A + A:a | a + A:a")), {"lhs": 0, "rhs": (1, 2)}
     if fid == 16:
         return (lambda: Formula("a + A:a | 0 + A:a | A + A:a")), {"root": (0, 1, 2)}
+    if fid == 18:
+        return (lambda: Formula("b ~ a + A | 2:a")), {"lhs": 0, "rhs": (1, 2)}
+    if fid == 19:
+        return (lambda: Formula("b ~ a:A | A:a")), {"lhs": 0, "rhs": (1, 2)}
     raise ValueError(fid)
 
 
@@ -149,6 +153,26 @@ def replay_case(case):
                 bad.append({**base, "why": f"spec-of-part-{i}-does-not-regenerate-it", "observed": [n3, c3], "expected": [names, cells]})
         except Exception as e:  # noqa
             bad.append({**base, "why": f"spec-of-part-{i}-failed", "observed": type(e).__name__ + ": " + str(e)[:100]})
+    # the structured spec attached to the result regenerates all parts at once, with one drop set (the model-spec entry point of
+    # "equals the part built alone": ModelSpecs.get_model_matrix / model_matrix(result, data))
+    if kept and not bad:
+        from formulaic import model_matrix
+
+        try:
+            d2 = {d - 1 for d in case["drop0"]}
+            regen = res.model_spec.get_model_matrix(df, drop_rows=d2, context={}) if h % 2 else model_matrix(res, df, drop_rows=d2, context={})
+            rshape, rparts = shape_and_parts(regen)
+            if norm(rshape) != norm(shape):
+                bad.append({**base, "why": "shape-of-the-result-regenerated-from-the-attached-specs", "observed": norm(rshape), "expected": norm(shape)})
+            else:
+                for i, mm in enumerate(rparts):
+                    n4, c4, _, _, a4 = matlib.alpha_matrix(mm, output)
+                    if n4 != case["parts"][i]["names"] or c4 != case["parts"][i]["cells"]:
+                        bad.append({**base, "why": f"part-{i}-regenerated-from-the-attached-specs-differs", "observed": [n4, c4], "expected": [case["parts"][i]["names"], case["parts"][i]["cells"]]})
+                if sorted(int(x) for x in d2) != sorted(joint):
+                    bad.append({**base, "why": "caller-drop-set-after-regenerating-from-the-attached-specs", "observed": sorted(int(x) for x in d2), "expected": sorted(joint)})
+        except Exception as e:  # noqa
+            bad.append({**base, "why": "regenerating-from-the-attached-specs-failed", "observed": type(e).__name__ + ": " + str(e)[:100]})
     return bad
 
 
